@@ -176,6 +176,8 @@ class ConstantHistory(ScheduleHistory):
                 ts = None
             elif ts_kind == "before":
                 ts = t0 - tsx * dt * 10
+            elif ts_kind == "zero":
+                ts = 0.0  # exactly zero (a falsy but perfectly valid start time)
             else:
                 ts = t0 + tsx * dt * 10
             if ts is not None and route == "parse":
@@ -184,7 +186,7 @@ class ConstantHistory(ScheduleHistory):
 
         return st.builds(
             build, nice_float(1e-6, 1e6), st.sampled_from([0, 0, 1, -1]),
-            st.floats(0, 1e6), st.sampled_from(["none", "none", "before", "after"]),
+            st.floats(0, 1e6), st.sampled_from(["none", "none", "before", "after", "zero"]),
             st.floats(0, 1), st.sampled_from(["direct", "parse"]), st.booleans())
 
     def construct(self, init):
@@ -230,11 +232,13 @@ class LogarithmicHistory(ScheduleHistory):
         def build(dt, f, t0s, rel, ts_kind, tsx, copy_first):
             t0 = t0s * dt * rel
             ts = None if ts_kind == "none" else (t0 - tsx * dt * 10 if ts_kind == "before" else t0 + tsx * dt * 10)
+            if ts_kind == "zero":
+                ts = 0.0
             return {"dt": dt, "factor": f, "t0": t0, "t_start": ts, "copy_first": copy_first}
 
         factor = st.one_of(st.just(1.0), st.floats(1.0, 3.0), st.sampled_from([1.1, 1.5, 2.0, 10.0]))
         return st.builds(build, nice_float(1e-6, 1e6), factor, st.sampled_from([0, 0, 1, -1]),
-                         st.floats(0, 1e4), st.sampled_from(["none", "none", "before", "after"]),
+                         st.floats(0, 1e4), st.sampled_from(["none", "none", "before", "after", "zero"]),
                          st.floats(0, 1), st.booleans())
 
     def construct(self, init):
